@@ -251,9 +251,16 @@ def run(chk):
     rng = random.Random(chk.seed)
     hook = hook_present()
 
+    import time
+    phases, t_ph = {}, [time.time()]
+
+    def phase(name):
+        phases[name] = round(time.time() - t_ph[0], 1)
+        t_ph[0] = time.time()
+
     # 1. design level --------------------------------------------------------------------------
     if not chk.replay:
-        jobs = [("MCFixed2", "2 nodes, <=2 updates each")] if quick else \
+        jobs = [("MCFixed2Asym", "2 nodes, node 1 <=2 updates, node 2 <=1")] if quick else \
                [("MCFixed2", "2 nodes, <=2 updates each"), ("MCFixed2Fail", "2 nodes, one failing call"),
                 ("MCFixed3", "3 nodes, <=1 update each"), ("MCFixed3Fail", "3 nodes, one failing call")]
         allok = True
@@ -268,13 +275,17 @@ def run(chk):
         expect = {"MCPinned10": "PSafety", "MCPinned11": "Delivered", "MCNaive11": "Delivered"}
         for cfg, prop in expect.items():
             res = V.tlc(work, "MCCRDT", cfg=cfg + ".cfg", workers=4, timeout=1800, deadlock=False)
+            if res.violation is None and res.error and "Temporal properties" in res.error and "violated" in res.error:
+                res.violation, res.error = res.error, None  # TLC names the properties in this message
             s = res.summary("%s (expected counterexample: the unrepaired design violates %s)" % (cfg, prop))
             chk.tlc_jobs.append(s)
-            chk.notes["model_counterexample_" + cfg] = bool(res.violation)
-            if not res.violation:
+            found = bool(res.violation) and (prop in res.violation or (prop == "PSafety" and "Action property" in res.violation))
+            chk.notes["model_counterexample_" + cfg] = found
+            if not found:
                 chk.inconclusive.append("vacuity: %s was expected to violate %s on the model and did not (%s)" % (
                     cfg, prop, res.error or "no violation"))
 
+    phase("design_level_tlc")
     # 2. cases --------------------------------------------------------------------------------
     if chk.replay:
         rp = json.load(open(chk.replay))
@@ -287,9 +298,11 @@ def run(chk):
         cases = [c for c in cases if c["mode"] == "free"]
     by_id = {c["id"]: c for c in cases}
 
+    phase("generators")
     # 3. real code ----------------------------------------------------------------------------
     drv = V.build_driver("c13drv", chk.bindir, tags="verif,verifh3" if hook else "verif")
     lines = run_driver(chk, drv, cases, parts=1 if chk.replay else (4 if quick else 8))
+    phase("build_and_drive_real_code")
     segs = V.split_cases(lines)
     if len(segs) != len(cases):
         raise V.Inconclusive("driver recorded %d cases of %d" % (len(segs), len(cases)))
@@ -328,6 +341,7 @@ def run(chk):
                           json.dumps(seg[r["line_in_seg"] - 1]) if 0 < r["line_in_seg"] <= len(seg) else "?"),
                       {"case": case, "events": upto[-60:], "event_index": r["line_in_seg"], "tlc": r["text"]})
 
+    phase("fold_CRDTObs")
     # 5. M-level conformance (drift only) ---------------------------------------------------------
     groups = {}
     for s in clean:
@@ -354,6 +368,8 @@ def run(chk):
                               "text": r["text"]})
         for e in mt["errors"]:
             chk.drift.append({"spec": "CRDTResource.tla", "cfg": cfg, "error": e})
+    phase("fold_CRDTResourceTrace")
+    chk.notes["phase_wall_s"] = phases
     chk.notes["m_level_traces_accepted"] = m_acc
     chk.notes["gated_cases"] = sum(len(g) for g in groups.values())
     skips = [ln for s in clean for ln in s if ln.get("e") == "skip"]
